@@ -53,7 +53,7 @@ def run(rep, tier):
                 cases.append((js, cname, layout, "case_xof_fixed", (a, fixed, 9, 40 if fixed in (32, 33) else 9),
                               "xof%s fixed length %d" % (sfx, fixed), "ascon_xof%s_init_fixed" % sfx))
             for nm in names:
-                for cl in (0, 1, 9):
+                for cl in ((0, 1, 8, 9) if tier == "quick" else (0, 1, 7, 8, 9, 16, 17, 33)):
                     for fixed in (0, 32, 20, 1 << 29, (1 << 32) + 20):
                         cases.append((js, cname, layout, "case_cxof", (a, nm, cl, 9, 33, fixed),
                                       "cxof%s name %s custom %d declared %d" % (sfx, "NULL" if nm is None else len(nm), cl, fixed),
